@@ -134,7 +134,9 @@ class Wiring:
                 continue
             op = PM.opcode_of(allb[0][0])
             if op is None:
-                raise AnalysisError(f'{ci.name}.{meth}: first byte written is not an Instruction member: {show(allb[0][0])}')
+                cases.append({'conds': rec['conds'], 'opcode': None, 'operands': [], 'rec': rec,
+                              'why': f'the first byte written is `{show(allb[0][0])}`, not a member of Instruction'})
+                continue
             operands = []
             flat = allb[0][1:] + [e for ch in allb[1:] for e in ch]
             for e in flat:
